@@ -156,3 +156,36 @@ Proof. vm_compute. auto. Qed.
 
 Example prog_ok_example : prog_ok cc_off [CPut kx [1]; CFull []; CPut kx [2]; CFull []; CTrigger []].
 Proof. unfold prog_ok, cfg_ok. simpl. lia. Qed.
+
+(* ---------- retirement that is NOT preceded by a full flush (known finding KF-C12-7) ---------- *)
+
+(* The log is replayed in full at every open; the recovered immutable tables are queued for
+   flushing again. One flush writes them (old data, newest file) but not the active recovered
+   table; retiring the flushed log files at that point loses the newer version of x. The full
+   theorem therefore speaks about retirement right after a FULL flush. *)
+Definition C12_retire_anywhere_statement : Prop :=
+  forall c k ops key, prog_ok k ops ->
+    let s := crun c k ops in
+    lost_log (eng s) = false -> cget (creopen s true) key = cget s key.
+
+Definition cfg_small : config := mkCfg 40 4.
+Definition w_reflush : list cop :=
+  [CPut kx [1]; CPut ka [7;7;7;7;7;7;7;7;7;7;7;7;7;7;7;7;7;7;7;7]; CPut kx [2]; CFull [];
+   CReopen false; CFlush []].
+
+Theorem retire_after_partial_flush_witness :
+  let s := crun cfg_small cc_off w_reflush in
+  lost_log (eng s) = false /\ cget s kx = Some [2] /\ cget (creopen s true) kx = Some [1] /\
+  map (fun f => (s_ts (d_sst f), map sk (d_entries f), map sval (d_entries f))) (disk s) =
+    [(0, [ka; kx], [Some [7;7;7;7;7;7;7;7;7;7;7;7;7;7;7;7;7;7;7;7]; Some [1]]);
+     (1, [kx], [Some [2]]);
+     (2, [ka; kx], [Some [7;7;7;7;7;7;7;7;7;7;7;7;7;7;7;7;7;7;7;7]; Some [1]])].
+Proof. vm_compute. auto. Qed.
+
+Theorem retire_anywhere_refuted : ~ C12_retire_anywhere_statement.
+Proof.
+  intro H. specialize (H cfg_small cc_off w_reflush kx).
+  destruct retire_after_partial_flush_witness as (A & B & C & _).
+  assert (P : prog_ok cc_off w_reflush) by (unfold prog_ok, cfg_ok; simpl; lia).
+  specialize (H P A). rewrite B, C in H. discriminate.
+Qed.
